@@ -56,6 +56,8 @@ type JobScenario struct {
 	ForeignPod string   `json:"foreignPod,omitempty"` // "" | noowner | otherowner : occupies attempt 0 of index 0
 	NotStarted bool     `json:"notStarted,omitempty"` // job is created but never started by the harness; action u:start available
 	SecondJob  bool     `json:"secondJob,omitempty"`
+	MaxResync  int      `json:"maxResync,omitempty"` // budget of spurious re-syncs (informer resync) of the Job key
+	Probes     bool     `json:"probes,omitempty"`    // also stop the clock one second before every deadline
 
 	Budget  mc.Budget `json:"budget"`
 	Horizon int       `json:"horizon,omitempty"` // seconds of simulated time explored (0 = unbounded)
@@ -85,6 +87,7 @@ type jobMem struct {
 	FailsUsed       int               `json:"fails"`
 	VanishUsed      int               `json:"vanish"`
 	FlapUsed        int               `json:"flap"`
+	ResyncUsed      int               `json:"resync"`
 	Deleted         map[string]bool   `json:"deleted"`
 	CreateAfterKill bool              `json:"-"`
 }
@@ -417,6 +420,9 @@ func (w *jobWorld) envEnabled() []string {
 		if s.DeleteJob && rj.DeletionTimestamp == nil && !w.mem.Deleted[jk] {
 			out = append(out, "u:delete:"+short)
 		}
+		if w.mem.ResyncUsed < s.MaxResync && w.SystemQuiescent() {
+			out = append(out, "u:resync:"+short)
+		}
 	}
 	return out
 }
@@ -510,6 +516,9 @@ func (w *jobWorld) envApply(action string) {
 				delete(w.mem.Succeeded, podJobUID(p)+"/"+podHash(p))
 			}
 		}
+	case "u:resync":
+		w.mem.ResyncUsed++
+		w.Queues["job"].Add("default/" + parts[2])
 	case "u:start":
 		w.startJob("default/" + parts[2])
 	case "u:kill":
@@ -543,9 +552,61 @@ func (w *jobWorld) noteRemoved(p *corev1.Pod) {
 	}
 }
 
+// Reference computations of the effective settings (independent of the code under test).
+func refTTL(rj *execution.Job, cfg *configv1alpha1.JobExecutionConfig) time.Duration {
+	if v := rj.Spec.TTLSecondsAfterFinished; v != nil {
+		return time.Duration(*v) * time.Second
+	}
+	if v := cfg.DefaultTTLSecondsAfterFinished; v != nil {
+		return time.Duration(*v) * time.Second
+	}
+	return 0
+}
+
+func refPendingTimeout(rj *execution.Job, cfg *configv1alpha1.JobExecutionConfig) time.Duration {
+	if v := rj.Spec.Template.TaskPendingTimeoutSeconds; v != nil && *v >= 0 {
+		return time.Duration(*v) * time.Second
+	}
+	if v := cfg.DefaultPendingTimeoutSeconds; v != nil {
+		return time.Duration(*v) * time.Second
+	}
+	return 0
+}
+
+func refForceDelete(cfg *configv1alpha1.JobExecutionConfig) time.Duration {
+	if v := cfg.ForceDeleteTaskTimeoutSeconds; v != nil {
+		return time.Duration(*v) * time.Second
+	}
+	return 0
+}
+
+func refMaxAttempts(rj *execution.Job) int64 {
+	if t := rj.Spec.Template; t != nil && t.MaxAttempts != nil {
+		return *t.MaxAttempts
+	}
+	return 1
+}
+
+func refRetryDelay(rj *execution.Job) time.Duration {
+	if t := rj.Spec.Template; t != nil && t.RetryDelaySeconds != nil {
+		return time.Duration(*t.RetryDelaySeconds) * time.Second
+	}
+	return 0
+}
+
 func (w *jobWorld) cfg() *configv1alpha1.JobExecutionConfig { return w.scn.jobExecutionConfig() }
 
 func (w *jobWorld) deadlines() []time.Time {
+	out := w.rawDeadlines()
+	if w.scn.Probes {
+		for _, t := range append([]time.Time(nil), out...) {
+			out = append(out, t.Add(-time.Second))
+		}
+	}
+	return out
+}
+
+func (w *jobWorld) rawDeadlines() []time.Time {
 	var out []time.Time
 	cfg := w.cfg()
 	for _, jk := range w.jobKeys {
@@ -557,10 +618,10 @@ func (w *jobWorld) deadlines() []time.Time {
 			out = append(out, ts.Time)
 		}
 		if fin := rj.Status.Condition.Finished; fin != nil && rj.DeletionTimestamp == nil {
-			out = append(out, fin.FinishTimestamp.Add(jobutil.GetTTLAfterFinished(rj, cfg)))
+			out = append(out, fin.FinishTimestamp.Add(refTTL(rj, cfg)))
 		}
-		pt := jobutil.GetPendingTimeout(rj, cfg)
-		fd := jobutil.GetForceDeleteTimeout(cfg)
+		pt := refPendingTimeout(rj, cfg)
+		fd := refForceDelete(cfg)
 		for _, p := range w.podsOf(rj) {
 			if pt > 0 && !podRan(p) && !podFinished(p) && p.DeletionTimestamp == nil {
 				out = append(out, p.CreationTimestamp.Add(pt))
@@ -569,7 +630,7 @@ func (w *jobWorld) deadlines() []time.Time {
 				out = append(out, p.DeletionTimestamp.Add(fd))
 			}
 		}
-		if rd := rj.GetRetryDelay(); rd > 0 {
+		if rd := refRetryDelay(rj); rd > 0 {
 			for id, end := range w.mem.LastEnd {
 				if strings.HasPrefix(id, string(rj.UID)+"/") {
 					out = append(out, sim.Epoch.Add(time.Duration(end)*time.Second).Add(rd))
@@ -657,7 +718,7 @@ func (w *jobWorld) truth(rj *execution.Job) (bool, bool) {
 			continue
 		}
 		// exhausted: maxAttempts pods created, all ended without success.
-		if int64(w.mem.Created[id]) >= rj.GetMaxAttempts() {
+		if int64(w.mem.Created[id]) >= refMaxAttempts(rj) {
 			allEnded := true
 			for _, p := range w.podsOf(rj) {
 				if podHash(p) == h && !podFinished(p) {
@@ -708,13 +769,13 @@ func (w *jobWorld) onPodWrite(wr sim.Write) {
 			w.Violate("C09", "attempt-duplicated", fmt.Sprintf("a second pod was created for attempt %s", p.Name), w.features()...)
 		}
 		// (c) attempts bound
-		if int64(w.mem.Created[id]) >= rj.GetMaxAttempts() {
-			w.Violate("C08", "max-attempts", fmt.Sprintf("pod %s is attempt %d of max %d", p.Name, w.mem.Created[id]+1, rj.GetMaxAttempts()), w.features()...)
+		if int64(w.mem.Created[id]) >= refMaxAttempts(rj) {
+			w.Violate("C08", "max-attempts", fmt.Sprintf("pod %s is attempt %d of max %d", p.Name, w.mem.Created[id]+1, refMaxAttempts(rj)), w.features()...)
 		}
 		// (d) retry delay
 		if end, ok := w.mem.LastEnd[id]; ok && w.mem.Created[id] > 0 {
-			if int64(w.Offset()) < end+int64(rj.GetRetryDelay().Seconds()) {
-				w.Violate("C08", "retry-delay", fmt.Sprintf("pod %s created at +%ds, previous attempt ended at +%ds, retryDelay %v", p.Name, int64(w.Offset()), end, rj.GetRetryDelay()), w.features()...)
+			if int64(w.Offset()) < end+int64(refRetryDelay(rj).Seconds()) {
+				w.Violate("C08", "retry-delay", fmt.Sprintf("pod %s created at +%ds, previous attempt ended at +%ds, retryDelay %v", p.Name, int64(w.Offset()), end, refRetryDelay(rj)), w.features()...)
 			}
 		}
 		// (e) gates
@@ -798,7 +859,7 @@ func (w *jobWorld) judgeDelete(wr sim.Write, p *corev1.Pod, rj *execution.Job) {
 	reason := ""
 	if !justified {
 		// pending timeout
-		pt := jobutil.GetPendingTimeout(rj, cfg)
+		pt := refPendingTimeout(rj, cfg)
 		view := w.cachedPod(sim.ObjKey(p))
 		if view == nil {
 			view = p
@@ -821,7 +882,7 @@ func (w *jobWorld) judgeDelete(wr sim.Write, p *corev1.Pod, rj *execution.Job) {
 	}
 	if wr.Force {
 		w.Count("C12.force-delete")
-		fd := jobutil.GetForceDeleteTimeout(cfg)
+		fd := refForceDelete(cfg)
 		switch {
 		case rj.Spec.Template.ForbidTaskForceDeletion:
 			w.Violate("C12", "force-delete-forbidden", "pod "+p.Name+" force-deleted although the job forbids force deletion", w.features()...)
@@ -910,7 +971,7 @@ func (w *jobWorld) onJobWrite(wr sim.Write) {
 		if wr.Actor == "ctrl" {
 			w.Count("C13.ttl-delete")
 			fin := old.Status.Condition.Finished
-			ttl := jobutil.GetTTLAfterFinished(old, w.cfg())
+			ttl := refTTL(old, w.cfg())
 			if fin == nil {
 				// The controller may delete in the very sync in which it first computes the
 				// finished condition (the status write follows). Judge against ground truth:
@@ -1094,7 +1155,7 @@ func (w *jobWorld) checkState(quiescent bool) {
 		}
 		// C12: kill liveness.
 		if ts := rj.Spec.KillTimestamp; ts != nil && !ts.After(now) && started && rj.DeletionTimestamp == nil {
-			stuckOK := w.scn.KubeletDead && (rj.Spec.Template.ForbidTaskForceDeletion || jobutil.GetForceDeleteTimeout(cfg) <= 0)
+			stuckOK := w.scn.KubeletDead && (rj.Spec.Template.ForbidTaskForceDeletion || refForceDelete(cfg) <= 0)
 			if !future && !stuckOK {
 				if alive > 0 {
 					w.Violate("C12", "kill-liveness", fmt.Sprintf("kill timestamp passed, system at rest, %d task(s) still alive", alive))
@@ -1106,7 +1167,7 @@ func (w *jobWorld) checkState(quiescent bool) {
 			}
 		}
 		// C12: pending liveness.
-		if pt := jobutil.GetPendingTimeout(rj, cfg); pt > 0 && !future {
+		if pt := refPendingTimeout(rj, cfg); pt > 0 && !future {
 			for _, p := range pods {
 				if !podRan(p) && !podFinished(p) && p.DeletionTimestamp == nil && !now.Before(p.CreationTimestamp.Add(pt)) {
 					w.Violate("C12", "pending-liveness", "pod "+p.Name+" exceeded the pending timeout, system at rest, not deleted", w.features()...)
@@ -1129,6 +1190,69 @@ func (w *jobWorld) checkState(quiescent bool) {
 				}
 			}
 		}
+		// Armed-timer oracle: whatever the Job is waiting for in the future, a deferred
+		// sync must be armed no later than one second after that instant.
+		if rj.DeletionTimestamp == nil {
+			armed := func(what string, prop string, d time.Time) {
+				w.Count("armed-timer")
+				if !d.After(now) {
+					return
+				}
+				if due, ok := w.Queues["job"].Delayed()[jk]; ok && !due.After(d.Add(time.Second)) {
+					return
+				}
+				w.Violate(prop, "no-wakeup-armed", fmt.Sprintf("job waits for %s at +%.0fs but no deferred sync is armed by then (armed: %v)", what, d.Sub(sim.Epoch).Seconds(), w.Queues["job"].Delayed()), w.features()...)
+			}
+			if fin != nil {
+				armed("TTL expiry", "C13", fin.FinishTimestamp.Add(refTTL(rj, cfg)))
+			}
+			if started && fin == nil {
+				if ts := rj.Spec.KillTimestamp; ts != nil {
+					// Needed when something is left to do at the kill time: a task to delete,
+					// or nothing alive so that the Job must turn Killed.
+					todo := alive == 0
+					for _, p := range pods {
+						if !podFinished(p) && p.DeletionTimestamp == nil {
+							todo = true
+						}
+					}
+					if todo {
+						armed("kill timestamp", "C12", ts.Time)
+					}
+				}
+				pt := refPendingTimeout(rj, cfg)
+				fd := refForceDelete(cfg)
+				for _, p := range pods {
+					if pt > 0 && !podRan(p) && !podFinished(p) && p.DeletionTimestamp == nil {
+						armed("pending timeout of "+p.Name, "C12", p.CreationTimestamp.Add(pt))
+					}
+					if fd > 0 && p.DeletionTimestamp != nil && !podFinished(p) && !rj.Spec.Template.ForbidTaskForceDeletion {
+						armed("force deletion of "+p.Name, "C12", p.DeletionTimestamp.Add(fd))
+					}
+				}
+				if rd := refRetryDelay(rj); rd > 0 && rj.Spec.KillTimestamp == nil {
+					if _, ae := jobutil.GetAdmissionErrorMessage(rj); !ae {
+						ds, df := w.truth(rj)
+						for _, h := range indexHashes(rj) {
+							id := string(rj.UID) + "/" + h
+							n := int64(w.mem.Created[id])
+							if ds || df || w.mem.Succeeded[id] || n == 0 || n >= refMaxAttempts(rj) {
+								continue
+							}
+							live := false
+							for _, p := range pods {
+								if podHash(p) == h && !podFinished(p) {
+									live = true
+								}
+							}
+							if end, ok := w.mem.LastEnd[id]; ok && !live {
+								armed("retry delay of index "+h, "C08", sim.Epoch.Add(time.Duration(end)*time.Second).Add(rd))
+							}
+						}
+					}
+				}
+			}
+		}
 		// C09: foreign pod => AdmissionError.
 		if w.scn.ForeignPod != "" && jk == "default/j1" && started && !future && rj.DeletionTimestamp == nil && rj.Spec.KillTimestamp == nil {
 			if rj.Status.Phase != execution.JobAdmissionError {
@@ -1143,7 +1267,7 @@ func (w *jobWorld) checkState(quiescent bool) {
 			w.Violate("C13", "deletion-stuck", fmt.Sprintf("job is being deleted, system at rest, %d task(s) still exist", len(pods)))
 		}
 		if fin != nil && rj.DeletionTimestamp == nil && !future {
-			if !now.Before(fin.FinishTimestamp.Add(jobutil.GetTTLAfterFinished(rj, cfg))) {
+			if !now.Before(fin.FinishTimestamp.Add(refTTL(rj, cfg))) {
 				w.Violate("C13", "ttl-liveness", "finished job is past its TTL, system at rest, not deleted", w.features()...)
 			}
 		}
